@@ -24,7 +24,7 @@
 (* d |-> dimension, v |-> number]; unused fields are "" / 0.               *)
 (* Actions of the environment: A (x = 0,1), B (x = 5,6: same shape, other  *)
 (* coordinate values), A2 = A.map(par1), B2 = B.map(par2), D (x = 0,1;     *)
-(* y = 7: a dimension of size one), E (x = 0..3).                          *)
+(* y = 7: a dimension of size one), E (x = 0..3), slices of F (see (L)).   *)
 (***************************************************************************)
 EXTENDS Naturals, Sequences, FiniteSets, TLC, Json, IOUtils, SequencesExt
 
@@ -70,10 +70,17 @@ UnOps == {Op("map", "lam1", "", "", 0), Op("addc", "", "", "", 1), Op("sum", "",
           Op("stack", "", "", "y", 0), Op("concatenate", "", "", "x", 0), Op("concatenate", "", "", "y", 0),
           Op("flatten", "", "", "x", 0), Op("expand", "", "", "e", 2), Op("transform", "", "", "t", 2)}
 Seconds == IF SecondOps = "all" THEN BinOps \cup UnOps
-           ELSE {Op("add", "", "A", "", 0), Op("join_match", "", "B", "", 0), Op("stack", "", "", "y", 0), Op("subtract", "", "B2", "", 0)}
+           ELSE {Op("join_match", "", "B", "", 0), Op("stack", "", "", "y", 0)}
 OperandCases == {[kind |-> "operands", start |-> s, p |-> <<o>>, q |-> <<>>] : s \in {"A", "A2", "D"}, o \in BinOps \cup UnOps}
            \cup {[kind |-> "operands", start |-> s, p |-> <<o, o2>>, q |-> <<>>] : s \in {"A", "A2", "D"}, o \in BinOps \cup UnOps, o2 \in Seconds}
 
+\* (L) operands that carry SCALAR coordinates with different labels: slices of F (dims m = 0,1 then x = 0,1) made by select /
+\*     isel of different labels along the first dimension (F0, F1, F0i, F1i: scalar m before the dimension x), along the second
+\*     (G0, G1: scalar x after the dimension m), and fully selected 0-d actions (Z0, Z1)
+SliceKeys0 == {"F0", "G0", "Z0", "F0i"}
+SliceKeys1 == {"F1", "G1", "Z1", "F1i"}
+SliceCases == {[kind |-> "operands", start |-> s, p |-> <<Op(k, "", o, "", 0)>>, q |-> <<>>] : s \in SliceKeys0, k \in BinKinds, o \in SliceKeys1}
+         \cup {[kind |-> "operands", start |-> s, p |-> <<Op(k, "", o, "", 0)>>, q |-> <<>>] : s \in SliceKeys1, k \in {"subtract", "join_match"}, o \in SliceKeys0}
 \* (T) the same parametrised operation twice, from the same receiver, with different parameter values: the first result is
 \*     a pre-existing action when the second is built (v: axis of flatten / stack, internal dimension of expand, a backend kwarg)
 TwiceKinds == {"flatten", "stack", "sum_kw", "expand_i"}
@@ -96,7 +103,7 @@ Post(c, r) ==
  \cup (IF c.kind # "operands" /\ Len(r.steps) # 2 * (Len(c.p) + Len(c.q)) THEN {"program_not_executed"} ELSE {})
 
 \* ======================================================================== the two TLC passes
-Generate == JsonSerialize(IOEnv.CASES_FILE, SetToSeq(NameCases) \o SetToSeq(PermCases) \o SetToSeq(SharedCases) \o SetToSeq(SourceCases) \o SetToSeq(OperandCases) \o SetToSeq(TwiceCases))
+Generate == JsonSerialize(IOEnv.CASES_FILE, SetToSeq(NameCases) \o SetToSeq(PermCases) \o SetToSeq(SharedCases) \o SetToSeq(SourceCases) \o SetToSeq(OperandCases) \o SetToSeq(TwiceCases) \o SetToSeq(SliceCases))
 \* names are also compared ACROSS cases: G = every node description of the whole run, Amb = names with two computations
 Judge ==
   LET cs == JsonDeserialize(IOEnv.CASES_FILE)
